@@ -26,6 +26,9 @@ from ...music.music import Music
 HEADER_TITLE_STR = b'pico-8 cartridge // http://www.pico-8.com\n'
 HEADER_VERSION_RE = re.compile(br'version (\d+)\n')
 SECTION_DELIM_RE = re.compile(br'__(\w+)__\n')
+# (PICO-8 0.2.4 and later append metadata sections such as __meta:title__.
+# They are not cart data.)
+META_SECTION_DELIM_RE = re.compile(br'__meta:[\w:]+__\n')
 INCLUDE_LINE_RE = re.compile(
     br'\s*#include\s+(\S+)(\.p8\.png|\.p8|\.lua)(\:\d+)?')
 PICO8_CART_PATHS = [
@@ -84,7 +87,10 @@ def _get_raw_data_from_p8_file(instr, filename=None):
         if not line:
             break
         section_delim_m = SECTION_DELIM_RE.match(line)
-        if section_delim_m:
+        if META_SECTION_DELIM_RE.match(line):
+            # The lines that follow belong to no cart section.
+            section = None
+        elif section_delim_m:
             section = str(section_delim_m.group(1), encoding='utf-8')
             section_lines[section] = []
         elif section:
